@@ -22,6 +22,8 @@ pub enum BeginOut {
 pub enum RevOut {
     Completion,
     Abort(u8),
+    /// commit only: the terminal completes the partial reversal without sending a status information
+    CompletionNoStatus,
 }
 #[derive(Serialize, Deserialize, Clone, Debug, PartialEq)]
 pub enum HOp {
@@ -153,14 +155,19 @@ pub fn walk(h: &History) -> (Vec<ExpCall>, Vec<PlanEntry>) {
                         calls.push(ExpCall { op, accepted: true, own: vec![own], own_result: ExpResult::Aborted(c), cleanup: None, final_result: ExpResult::Aborted(c), open_after: open.len() });
                         continue;
                     }
-                    RevOut::Completion => {
+                    RevOut::Completion | RevOut::CompletionNoStatus => {
                         if let Some(i) = in_ledger {
                             ledger.remove(i);
                         }
                     }
                 }
+                // a commit without status information still completes (and cleans up) but has no summary to return
+                let no_summary = is_commit && out == RevOut::CompletionNoStatus;
+                if no_summary {
+                    plan.push(pe(kind, occ, Outcome::NoStatus));
+                }
                 if !open.is_empty() {
-                    calls.push(ExpCall { op, accepted: true, own: vec![own], own_result: ExpResult::Ok, cleanup: Some(vec![]), final_result: ExpResult::Ok, open_after: open.len() });
+                    calls.push(ExpCall { op, accepted: true, own: vec![own], own_result: ExpResult::Ok, cleanup: Some(vec![]), final_result: if no_summary { ExpResult::Err } else { ExpResult::Ok }, open_after: open.len() });
                     continue;
                 }
                 // clean-up: pending query, reversal of the reported pre-authorisation, end-of-day
@@ -181,7 +188,7 @@ pub fn walk(h: &History) -> (Vec<ExpCall>, Vec<PlanEntry>) {
                                 result = ExpResult::Aborted(c);
                                 stop = true;
                             }
-                            RevOut::Completion => {
+                            RevOut::Completion | RevOut::CompletionNoStatus => {
                                 // same rule as the simulated terminal: a ledger entry with that receipt goes first,
                                 // the separate dangling pre-authorisation only if the ledger holds none
                                 if let Some(i) = ledger.iter().position(|x| *x == r) {
@@ -205,6 +212,9 @@ pub fn walk(h: &History) -> (Vec<ExpCall>, Vec<PlanEntry>) {
                     }
                 }
                 let _ = n_pend;
+                if no_summary && result == ExpResult::Ok {
+                    result = ExpResult::Err;
+                }
                 calls.push(ExpCall { op, accepted: true, own: vec![own], own_result: ExpResult::Ok, cleanup: Some(cl), final_result: result, open_after: 0 });
             }
         }
@@ -366,6 +376,7 @@ fn alternatives(ntok: usize, outcomes: bool) -> Vec<HOp> {
             v.push(HOp::Begin { tok, out: BeginOut::NoReceipt });
             v.push(HOp::Begin { tok, out: BeginOut::AbortAfterReceipt(0x05) });
             v.push(HOp::Commit { tok, amount: 700, out: RevOut::Abort(0xb5) });
+            v.push(HOp::Commit { tok, amount: 700, out: RevOut::CompletionNoStatus });
             v.push(HOp::Cancel { tok, out: RevOut::Abort(0x64) });
         }
     }
@@ -382,7 +393,7 @@ fn history_strategy() -> impl Strategy<Value = History> {
     let rev_out = prop_oneof![5 => Just(RevOut::Completion), 1 => code.clone().prop_map(RevOut::Abort)];
     let step = prop_oneof![
         3 => (0usize..5, begin_out).prop_map(|(tok, out)| HOp::Begin { tok, out }),
-        2 => (0usize..5, any::<u64>(), rev_out.clone()).prop_map(|(tok, amount, out)| HOp::Commit { tok, amount, out }),
+        2 => (0usize..5, any::<u64>(), prop_oneof![6 => rev_out.clone(), 1 => Just(RevOut::CompletionNoStatus)]).prop_map(|(tok, amount, out)| HOp::Commit { tok, amount, out }),
         2 => (0usize..5, rev_out.clone()).prop_map(|(tok, out)| HOp::Cancel { tok, out }),
     ];
     (
